@@ -15,3 +15,11 @@ chk("C06","exploration",
  "Every generated session commit runs with witnessing on; the witness is replayed by the stateless verifier (path verification, per-key read attestation, verify_update) and checked for completeness against the batch and for agreement with the store's reported root and the reference root.",
  "Trusts reference trie/model. Worker interleavings are whatever the runs produce (sampled).",
  "property-based testing: stateless-verifier replay + completeness oracle (proptest)","DESIGN.md §3 C06")
+chk("C09","exploration",
+ "Generated histories over commits (sessions, overlay chains), rollback(n), reopen with small log limits and (via hook) 1-3-record rollback segments, judged step by step against a snapshot-stack model: required successes, required failures, exactness of every success, no side effect of any failure, reopenability.",
+ "Trusts the model; the hook's segment-size override only changes when segments roll over. Depths between the retained and the total number of commits may go either way (statement leaves it open).",
+ "property-based testing: stateful history generation + snapshot-stack model (proptest)","DESIGN.md §3 C09")
+chk("C10","exploration",
+ "Twin differential: the same generated history on a never-closed store and on a store reopened at generated points with generated configurations; both compared with the model and with each other (root, values, seqn, proofs, hash-table occupancy, commit/rollback outcomes).",
+ "Trusts the model; rollback depths in the statement's unspecified region are clamped to the guaranteed depth.",
+ "property-based testing: differential (twin store) + model oracle (proptest)","DESIGN.md §3 C10")
